@@ -28,6 +28,8 @@ type vtok struct {
 }
 
 type verifyRun struct {
+	insts   []*oidc.TraefikOidc // further middleware instances of the same process (index = "inst" of the protocol, 0 = inst)
+	clients []string
 	inst    *oidc.TraefikOidc
 	p       *provider
 	R       int
@@ -41,8 +43,21 @@ func newVerifyRun(R int) *verifyRun {
 	p := newProvider(keys()["p256a"], keys()["rsa2048a"])
 	r := &verifyRun{p: p, R: R, revoked: map[string]int64{}}
 	r.inst = newInstance(p, &down{}, func(c *oidc.Config) { c.RateLimit = R })
+	r.insts, r.clients = []*oidc.TraefikOidc{r.inst}, []string{"cid"}
 	r.rec(M{"op": "vcfg", "R": R})
 	return r
+}
+
+// sibling: another middleware instance in the same process (another router): same provider, its own caches, limiter and
+// revocation list; client is its client id ("cid" = same application, anything else = another application)
+func (r *verifyRun) sibling(client string) int {
+	in := newInstance(r.p, &down{}, func(c *oidc.Config) { c.RateLimit = r.R; c.ClientID = client })
+	r.insts = append(r.insts, in)
+	r.clients = append(r.clients, client)
+	i := len(r.insts) - 1
+	r.rec(M{"op": "vinst", "i": i, "client": client, "R": r.R})
+	T.stat("verify.sibling-instances")
+	return i
 }
 
 func (r *verifyRun) rec(m M) {
@@ -138,9 +153,11 @@ func (r *verifyRun) mint(kind string, expIn time.Duration, jti string) *vtok {
 
 func (t *vtok) scratch(now int64) bool { return t.valid && t.accFrom <= now && now <= t.accTo }
 
-func (r *verifyRun) verify(t *vtok, limiterOracle bool) string {
+func (r *verifyRun) verify(t *vtok, limiterOracle bool) string { return r.verifyOn(0, t) }
+
+func (r *verifyRun) verifyOn(i int, t *vtok) string {
 	now := nowNs()
-	err := r.inst.VerifyToken(t.raw)
+	err := r.insts[i].VerifyToken(t.raw)
 	res := "accept"
 	if err != nil {
 		if strings.Contains(err.Error(), "rate limit") {
@@ -149,26 +166,28 @@ func (r *verifyRun) verify(t *vtok, limiterOracle bool) string {
 			res = "reject"
 		}
 	}
-	r.rec(M{"op": "verify", "now": now, "id": t.id, "obs": M{"r": res}})
+	r.rec(M{"op": "verify", "now": now, "id": t.id, "inst": i, "obs": M{"r": res}})
 	T.stat("verify." + res + "." + t.kind)
 	if res == "accept" {
-		if !t.scratch(now) {
+		if !t.scratch(now) || r.clients[i] != "cid" { // (every token of this family is issued for client "cid")
 			T.oracle("C14", "token reported valid although a from-scratch verification at that moment rejects it", M{"id": t.id, "kind": t.kind, "now": now, "accFrom": t.accFrom, "accTo": t.accTo}, r.replay())
 		}
-		if at, ok := r.revoked[t.id]; ok {
-			T.oracle("C14", "token reported valid although it was locally revoked earlier", M{"id": t.id, "revokedAt": at, "now": now, "exp": t.expNs}, r.replay())
+		if at, ok := r.revoked[fmt.Sprintf("%d/%s", i, t.id)]; ok {
+			T.oracle("C14", "token reported valid although it was locally revoked earlier", M{"id": t.id, "instance": i, "revokedAt": at, "now": now, "exp": t.expNs}, r.replay())
 		}
 	}
 	return res
 }
 
-func (r *verifyRun) revoke(t *vtok) {
+func (r *verifyRun) revoke(t *vtok) { r.revokeOn(0, t) }
+
+func (r *verifyRun) revokeOn(i int, t *vtok) {
 	now := nowNs()
-	r.inst.RevokeToken(t.raw)
-	if _, ok := r.revoked[t.id]; !ok {
-		r.revoked[t.id] = now
+	r.insts[i].RevokeToken(t.raw)
+	if _, ok := r.revoked[fmt.Sprintf("%d/%s", i, t.id)]; !ok {
+		r.revoked[fmt.Sprintf("%d/%s", i, t.id)] = now
 	}
-	r.rec(M{"op": "revoke", "now": now, "id": t.id, "obs": M{"r": "ok"}})
+	r.rec(M{"op": "revoke", "now": now, "id": t.id, "inst": i, "obs": M{"r": "ok"}})
 	T.stat("verify.revoke")
 }
 
@@ -243,6 +262,20 @@ func familyVerify(t *testing.T) {
 				damaged := r.mint("sameprefix", 30*time.Minute, "")
 				r.verify(damaged, false)
 				r.verify(tk, false)
+			}
+			if sc%10 == 6 && !lowLimit { // sibling instances of the same process: each decides on its own state and its own configuration
+				same, other := r.sibling("cid"), r.sibling("another-app")
+				tk := r.mint("valid", 2*time.Hour, "")
+				r.verifyOn(0, tk)
+				r.verifyOn(other, tk) // issued for "cid": not valid for the other application, whatever instance 0 has cached
+				r.revokeOn(0, tk)
+				r.verifyOn(0, tk)
+				r.verifyOn(same, tk) // never revoked there
+				r.verifyOn(0, tk)    // still revoked here
+				r.verifyOn(other, tk)
+				vsleep(time.Duration(1+rng.Intn(50)) * time.Minute)
+				r.verifyOn(same, tk)
+				r.verifyOn(0, tk)
 			}
 			if sc%5 == 0 { // the textbook sequence: verify, revoke, verify at once, wait 25 h, verify
 				tk := r.mint("valid", 72*time.Hour, "")
